@@ -506,6 +506,7 @@ class Explorer:
         self.info = fninfo(f)
         self.assume = dict(assume or {})
         self.assume_def = dict(assume_def or {})
+        self.assume_once = {}           # inst id -> (AV of the first execution on a path, [AVs of later executions])
         self.plugin = plugin
         self.pairs = set(pairs)         # designated (keyA, keyB) relation pairs
         self.pair_keys = {k for p in self.pairs for k in p}
@@ -1128,7 +1129,7 @@ class Explorer:
         return False
 
     def depends_on_assumption(self, o, through_phis=False):
-        roots = set(self.assume) | {("i", k) for k in self.assume_def}
+        roots = set(self.assume) | {("i", k) for k in self.assume_def} | {("i", k) for k in self.assume_once}
         if o[0] not in ("i", "a"):
             return False
         cl = self.info.closure_phi((o[0], o[1])) if through_phis else self.info.closure((o[0], o[1]))
@@ -1247,7 +1248,21 @@ class Explorer:
                 nxt = []
                 for s in states:
                     k = ("i", i.id)
-                    if i.id in self.assume_def:
+                    if i.id in self.assume_once:
+                        first, later = self.assume_once[i.id]
+                        if not s.env.get(("once", i.id)):
+                            s.env[k] = first
+                            s.env[("once", i.id)] = True
+                        elif later:
+                            # a later execution of the same instruction: one state per value it may produce
+                            for av in later[1:]:
+                                s2 = State(dict(s.env), s.approx, s.trail)
+                                s2.env[k] = av
+                                nxt.append(s2)
+                            s.env[k] = later[0]
+                        elif k in s.env:
+                            del s.env[k]
+                    elif i.id in self.assume_def:
                         s.env[k] = self.assume_def[i.id]
                     elif k in s.env and i is not b.term:
                         # re-executing the definition invalidates an old refinement
